@@ -12,14 +12,22 @@ import (
 func New() *Handler {
 	return &Handler{
 		m:        new(sync.Mutex),
-		requests: map[int64]chan event{},
+		requests: map[int64]client{},
 	}
 }
 
 type Handler struct {
 	m        *sync.Mutex
 	counter  int64
-	requests map[int64]chan event
+	requests map[int64]client
+}
+
+// client is a connected event stream. The events channel is never closed, because
+// deliveries started by Send may still be in flight when the client disconnects; they give
+// up when done is closed instead.
+type client struct {
+	events chan event
+	done   chan struct{}
 }
 
 type event struct {
@@ -31,14 +39,17 @@ type event struct {
 func (s *Handler) Send(eventType string, data string) {
 	s.m.Lock()
 	defer s.m.Unlock()
-	for _, f := range s.requests {
-		f := f
-		go func(f chan event) {
-			f <- event{
+	for _, c := range s.requests {
+		go func(c client) {
+			select {
+			case c.events <- event{
 				Type: eventType,
 				Data: data,
+			}:
+			case <-c.done:
+				// The client has disconnected.
 			}
-		}(f)
+		}(c)
 	}
 }
 
@@ -52,13 +63,14 @@ func (s *Handler) ServeHTTP(w http.ResponseWriter, r *http.Request) {
 	id := atomic.AddInt64(&s.counter, 1)
 	s.m.Lock()
 	events := make(chan event)
-	s.requests[id] = events
+	done := make(chan struct{})
+	s.requests[id] = client{events: events, done: done}
 	s.m.Unlock()
 	defer func() {
 		s.m.Lock()
 		defer s.m.Unlock()
 		delete(s.requests, id)
-		close(events)
+		close(done)
 	}()
 
 	timer := time.NewTimer(0)
